@@ -22,9 +22,10 @@ from ..cfg import cfg_of
 from ..flow import ERROR
 from ..model import UNKNOWN, AnchorError, Func, UnknownIdiom, attr_chain, local_names, short, walk_no_nested
 from .c13_helpers import Defs, resolve_alias
-from .c15_helpers import (ASGI_RESPONSE, RESPONSE, Provenance, Site, controlling_edges, header_sites, helper_returns, is_lower_call, key_case,
+from .c15_helpers import (ASGI_RESPONSE, RESPONSE, Provenance, Site, controlling_edges, header_sites, bound_args, helper_returns, is_lower_call, key_case,
                           key_helper, raises_only,
                           reaching, response_receiver, store_exprs)
+from .c17_helpers import param_values, single_return_expr
 from .common import enclosing_map, implied, single, strip_await, walk_self, stmts_walk
 
 FACTORY = 'falcon.response_helpers._header_property'
@@ -64,8 +65,18 @@ def r1_lower_keys(run):
 # R2
 # ---------------------------------------------------------------------------
 
-def _cookie_atom(p, f, keyname: str, want_eq: bool):
+def _cookie_atom(p, f, keyname: str, want_eq: bool, depth: int = 0):
+    """atom(e): e is `<keyname> == 'set-cookie'` (want_eq) / `<keyname> != 'set-cookie'`, written in place or as a call of a
+    one-expression predicate helper handed the name (`_is_set_cookie(name)` with `return name == 'set-cookie'`)."""
     def atom(e):
+        if isinstance(e, ast.Call) and depth < 2:
+            g = key_helper(p, f, e)
+            body = single_return_expr(g) if g is not None else None
+            if body is not None:
+                qs = [q for q, a in bound_args(g, e).items() if isinstance(a, ast.Name) and a.id == keyname]
+                if len(qs) == 1:
+                    return _cookie_atom(p, g, qs[0], want_eq, depth + 1)(strip_await(body))
+            return False
         if not (isinstance(e, ast.Compare) and len(e.ops) == 1):
             return False
         a, b = e.left, e.comparators[0]
@@ -140,6 +151,29 @@ def _not_cookie(p, f: Func, name: str, nid: int, refusing: List[Func], depth: in
     ds = rd.at(nid, name)
     if not ds or depth >= 2:
         return False
+    # (c) a vetting helper called as a statement before the access: `_refuse_set_cookie(name, msg)` returns normally only
+    #     for a name other than set-cookie (every normal path through it takes the "not set-cookie" outcome of a comparison
+    #     of the parameter that receives the name)
+    for cn in cfg.live_nodes():
+        if cn.kind != 'stmt' or not isinstance(cn.ast, ast.Expr) or cn.id == nid:
+            continue
+        call = strip_await(cn.ast.value)
+        g = key_helper(p, f, call) if isinstance(call, ast.Call) else None
+        if g is None:
+            continue
+        qs = [q for q, a in bound_args(g, call).items() if isinstance(a, ast.Name) and a.id == name]
+        if len(qs) != 1 or {d.idx for d in rd.at(cn.id, name)} != here:
+            continue
+        if not any(flow.dominated_by_edge(cfg, nid, (cn.id, y, l)) for (y, l) in cfg.succ[cn.id] if l != 'exc'):
+            continue
+        gcfg = cfg_of(g, p)
+        grd = reaching(p, g)
+        good = [edge for (edge, is_cookie) in _guard_edges(p, g, gcfg, qs[0]) if not is_cookie
+                and all(d.kind == 'param' for d in grd.at(edge[0], qs[0]))]
+        if good and flow.find_path(gcfg, [gcfg.entry], [gcfg.exit], avoid_edges=good, edge_filter=flow.no_exc) is None:
+            if g not in refusing:
+                refusing.append(g)
+            return True
     helpers = []
     for d in ds:
         g = key_helper(p, f, d.value) if d.kind == 'assign' and d.value is not None else None
@@ -272,11 +306,21 @@ STORES = ('_headers', '_extra_headers', '_cookies')
 
 
 def _mentions_store(p, f, e, denoters) -> Set[str]:
+    """the stores an expression reads: named in place, or read by a one-expression helper method of the class it calls
+    (`items += self._cookie_lines()` with `return [... for c in self._cookies.values()]`)"""
     out = set()
     for x in ast.walk(e):
         for st, (den, _al) in denoters.items():
             if den(x):
                 out.add(st)
+        if isinstance(x, ast.Call):
+            g = key_helper(p, f, x)
+            body = single_return_expr(g) if g is not None and g.cls is not None else None
+            if body is not None:
+                for st in denoters:
+                    gden, _al = store_exprs(p, g, st)
+                    if any(gden(y) for y in ast.walk(body)):
+                        out.add(st)
     return out
 
 
@@ -458,8 +502,7 @@ def _emitter(run, tag, f: Func, want_bytes: bool):
         run.check(ok, '%s: one (%r, <morsel>.OutputString()) tuple per cookie in the jar' % (tag, lit), f, e, witness=[why],
                   runtime_witness='two cookies set -> not exactly two Set-Cookie lines, or a wrongly named line')
     for nid in by_store['_extra_headers']:
-        e = strip_await(contrib[nid][1])
-        den = denoters['_extra_headers'][0]
+        _sf, e, den = _inlined(p, f, contrib[nid][1], denoters['_extra_headers'][0], '_extra_headers')
         if den(e):
             ok, why = (not want_bytes), 'stored (name, value) tuples are passed through'
         elif isinstance(e, (ast.ListComp, ast.GeneratorExp)) and len(e.generators) == 1 and den(e.generators[0].iter) \
@@ -505,8 +548,27 @@ def _emitter(run, tag, f: Func, want_bytes: bool):
             runtime_witness='ASGI header names not lower-case / not bytes')
 
 
-def _cookie_lines(p, f, e, den, lit, want_bytes) -> Tuple[bool, str]:
+def _inlined(p, f: Func, e, den, store: str):
+    """(scope, expression, denoter): `e` itself, or - when `e` is a call of a one-expression helper of the class / module that
+    is handed the store (`_cookie_lines(self._cookies)` / `self._cookie_lines()`) - the helper's returned expression with the
+    parameter that receives the store (or the helper's own `self.<store>`) denoting it."""
     e = strip_await(e)
+    if isinstance(e, ast.Call) and not den(e):
+        g = key_helper(p, f, e)
+        body = single_return_expr(g) if g is not None else None
+        if body is not None:
+            qs = [q for q, a in bound_args(g, e).items() if den(strip_await(a))]
+            gden, _al = store_exprs(p, g, store)
+            rebound = set(Defs(g).defs)
+            if len(qs) == 1 and qs[0] not in rebound:
+                return g, strip_await(body), (lambda x, q=qs[0], gden=gden: (isinstance(x, ast.Name) and x.id == q) or gden(x))
+            if not qs and g.cls is not None and any(gden(x) for x in ast.walk(body)):
+                return g, strip_await(body), gden
+    return f, e, den
+
+
+def _cookie_lines(p, f, e, den, lit, want_bytes) -> Tuple[bool, str]:
+    f, e, den = _inlined(p, f, e, den, '_cookies')
     if not (isinstance(e, (ast.ListComp, ast.GeneratorExp)) and len(e.generators) == 1):
         raise UnknownIdiom('%s: shape of the cookie merge: %s' % (f.qual, short(e)))
     gen = e.generators[0]
@@ -659,37 +721,110 @@ def _numeric_optional(ann) -> bool:
     return has_none and bool(types) and types <= {'int', 'float'}
 
 
-def _morsel_stores(p, f: Func, cfg, name_param: str):
-    """[(cfg node, key constant, value expr, stmt)] for `<jar>[name][K] = V`, and
-    [(cfg node, value expr, stmt)] for `<jar>[name] = V`."""
+def _morsel_stores_raw(p, f: Func, cfg, name_param: str):
+    """[(cfg node, key EXPRESSION, value expr, stmt)] for `<this cookie's morsel>[K] = V`, and [(cfg node, value expr, stmt)]
+    for `<jar>[name] = V`.  This cookie's morsel is `<jar>[name]`, a local bound only to it (`morsel = <jar>[name]`), or the
+    result of a one-expression helper of the class / module that is handed the name (`self._morsel(name)` with
+    `return self._cookies[name]`)."""
     den, _al = store_exprs(p, f, '_cookies')
-    attrs, values = [], []
-    # `morsel = <jar>[name]`: a local bound only to this cookie's morsel stands for it
     defs = Defs(f)
+
+    def this_morsel(e) -> bool:
+        e = strip_await(e)
+        if isinstance(e, ast.Subscript) and den(e.value):
+            if not (isinstance(e.slice, ast.Name) and e.slice.id == name_param):
+                raise UnknownIdiom('%s: morsel of another cookie: %s' % (f.qual, short(e)))
+            return True
+        if isinstance(e, ast.Call):
+            g = key_helper(p, f, e)
+            body = single_return_expr(g) if g is not None else None
+            body = strip_await(body) if body is not None else None
+            if isinstance(body, ast.Subscript) and isinstance(body.slice, ast.Name):
+                bound = bound_args(g, e)
+                gden, _ = store_exprs(p, g, '_cookies')
+                jar_ok = gden(body.value) or (isinstance(body.value, ast.Name) and body.value.id in bound and den(bound[body.value.id]))
+                if jar_ok:
+                    arg = bound.get(body.slice.id)
+                    if not (isinstance(arg, ast.Name) and arg.id == name_param):
+                        raise UnknownIdiom('%s: morsel of another cookie: %s' % (f.qual, short(e)))
+                    return True
+        return False
+
+    # `morsel = <jar>[name]`: a local bound only to this cookie's morsel stands for it
     morsels = {nm for nm, ds in defs.defs.items() if nm not in defs.params and ds and all(
-        d[0] == 'assign' and isinstance(strip_await(d[1]), ast.Subscript) and den(strip_await(d[1]).value)
-        and isinstance(strip_await(d[1]).slice, ast.Name) and strip_await(d[1]).slice.id == name_param for d in ds)}
+        d[0] == 'assign' and isinstance(strip_await(d[1]), (ast.Subscript, ast.Call)) and this_morsel(d[1]) for d in ds)}
+    attrs, values = [], []
     for n in cfg.live_nodes():
         if n.kind != 'stmt' or not isinstance(n.ast, (ast.Assign, ast.AnnAssign)):
             continue
         tg = n.ast.targets if isinstance(n.ast, ast.Assign) else [n.ast.target]
         for t in tg:
             if isinstance(t, ast.Subscript) and isinstance(t.value, ast.Name) and t.value.id in morsels:
-                k = p.fold(f.module, t.slice, None, f)
-                if not isinstance(k, str):
-                    raise UnknownIdiom('%s: morsel key is not a constant: %s' % (f.qual, short(n.ast)))
-                attrs.append((n, k.lower(), n.ast.value, n.ast))
+                attrs.append((n, t.slice, n.ast.value, n.ast))
             elif isinstance(t, ast.Subscript) and isinstance(t.value, ast.Subscript) and den(t.value.value):
                 if not (isinstance(t.value.slice, ast.Name) and t.value.slice.id == name_param):
                     raise UnknownIdiom('%s: morsel of another cookie is written: %s' % (f.qual, short(n.ast)))
-                k = p.fold(f.module, t.slice, None, f)
-                if not isinstance(k, str):
-                    raise UnknownIdiom('%s: morsel key is not a constant: %s' % (f.qual, short(n.ast)))
-                attrs.append((n, k.lower(), n.ast.value, n.ast))
+                attrs.append((n, t.slice, n.ast.value, n.ast))
+            elif isinstance(t, ast.Subscript) and isinstance(t.value, ast.Call) and this_morsel(t.value):
+                attrs.append((n, t.slice, n.ast.value, n.ast))
             elif isinstance(t, ast.Subscript) and den(t.value):
                 if not (isinstance(t.slice, ast.Name) and t.slice.id == name_param):
                     raise UnknownIdiom('%s: another cookie is written: %s' % (f.qual, short(n.ast)))
                 values.append((n, n.ast.value, n.ast))
+    return attrs, values
+
+
+def _morsel_stores(p, f: Func, cfg, name_param: str):
+    """[(cfg node, key constant, value expr, stmt)] for `<jar>[name][K] = V`, and [(cfg node, value expr, stmt)] for
+    `<jar>[name] = V` - written in place, or inside a helper of the class / module called as a statement with the name
+    (`self._set_attr(name, 'domain', domain)` with `self._cookies[name][key] = value`): the helper's unconditional stores count
+    as stores of the calling statement, key and value read through the call's arguments."""
+    raw_attrs, values = _morsel_stores_raw(p, f, cfg, name_param)
+    attrs = []
+    for (n, kexpr, val, stmt) in raw_attrs:
+        k = p.fold(f.module, kexpr, None, f)
+        if not isinstance(k, str):
+            raise UnknownIdiom('%s: morsel key is not a constant: %s' % (f.qual, short(stmt)))
+        attrs.append((n, k.lower(), val, stmt))
+    for n in cfg.live_nodes():
+        if n.kind != 'stmt' or not isinstance(n.ast, ast.Expr):
+            continue
+        call = strip_await(n.ast.value)
+        g = key_helper(p, f, call) if isinstance(call, ast.Call) else None
+        if g is None:
+            continue
+        bound = bound_args(g, call)
+        qn = [q for q, a in bound.items() if isinstance(a, ast.Name) and a.id == name_param]
+        if len(qn) != 1:
+            continue
+        gcfg = cfg_of(g, p)
+        ga, gv = _morsel_stores_raw(p, g, gcfg, qn[0])
+        if not ga and not gv:
+            continue
+        rebound = {nm for nm in Defs(g).defs if nm in g.params()}
+
+        def through(e, g=g, bound=bound, rebound=rebound, call=call):
+            """the helper's expression as the caller sees it: a parameter is the argument, a constant is itself"""
+            e = strip_await(e)
+            if isinstance(e, ast.Name) and e.id in g.params() and e.id not in rebound:
+                if e.id not in bound:
+                    raise UnknownIdiom('%s: %s relies on a default of %s' % (f.qual, short(call), g.name))
+                return bound[e.id]
+            if isinstance(p.fold(g.module, e, None, g), (str, int, float, bool)):
+                return ast.Constant(p.fold(g.module, e, None, g))
+            raise UnknownIdiom('%s: what the helper %s stores (%s) is not one of its arguments' % (f.qual, g.name, short(e)))
+
+        for (gn, kexpr, val, gstmt) in ga:
+            if controlling_edges(gcfg, gn.id):
+                raise UnknownIdiom('%s: the helper %s stores a cookie attribute under a condition of its own' % (f.qual, g.qual))
+            k = p.fold(f.module, through(kexpr), None, f)
+            if not isinstance(k, str):
+                raise UnknownIdiom('%s: morsel key is not a constant: %s' % (f.qual, short(n.ast)))
+            attrs.append((n, k.lower(), through(val), n.ast))
+        for (gn, val, gstmt) in gv:
+            if controlling_edges(gcfg, gn.id):
+                raise UnknownIdiom('%s: the helper %s stores the cookie under a condition of its own' % (f.qual, g.qual))
+            values.append((n, through(val), n.ast))
     return attrs, values
 
 
@@ -890,20 +1025,23 @@ def r4_cookie_attributes(run):
             set_cells, set_func = _cookie_text_attrs(run, f, cfg, attrs), f
         else:
             _cookie_text_attrs(run, f, cfg, attrs)
-        # secure=None defers to the app option
-        is_none_atom = lambda e: (isinstance(e, ast.Compare) and len(e.ops) == 1 and isinstance(e.left, ast.Name)  # noqa: E731
-                                  and e.left.id == 'secure' and isinstance(e.ops[0], ast.Is)
-                                  and isinstance(e.comparators[0], ast.Constant) and e.comparators[0].value is None)
-        not_none_atom = lambda e: (isinstance(e, ast.Compare) and len(e.ops) == 1 and isinstance(e.left, ast.Name)  # noqa: E731
-                                   and e.left.id == 'secure' and isinstance(e.ops[0], ast.IsNot)
-                                   and isinstance(e.comparators[0], ast.Constant) and e.comparators[0].value is None)
+        # secure=None defers to the app option.  The decision is read where it is made: in set_cookie itself, or in a
+        # one-level helper of the class / module that is handed `secure` (`is_secure = self._cookie_secure(secure)`).
+        def none_atoms(prm):
+            is_none_atom = lambda e: (isinstance(e, ast.Compare) and len(e.ops) == 1 and isinstance(e.left, ast.Name)  # noqa: E731
+                                      and e.left.id == prm and isinstance(e.ops[0], ast.Is)
+                                      and isinstance(e.comparators[0], ast.Constant) and e.comparators[0].value is None)
+            not_none_atom = lambda e: (isinstance(e, ast.Compare) and len(e.ops) == 1 and isinstance(e.left, ast.Name)  # noqa: E731
+                                       and e.left.id == prm and isinstance(e.ops[0], ast.IsNot)
+                                       and isinstance(e.comparators[0], ast.Constant) and e.comparators[0].value is None)
 
-        def none_truth(test):
-            r = implied(test, True, is_none_atom)
-            if r is None:
-                r2 = implied(test, True, not_none_atom)
-                r = None if r2 is None else (not r2)
-            return r
+            def none_truth(test):
+                r = implied(test, True, is_none_atom)
+                if r is None:
+                    r2 = implied(test, True, not_none_atom)
+                    r = None if r2 is None else (not r2)
+                return r
+            return none_truth
 
         opt_init = p.lookup_method('falcon.response.ResponseOptions', '__init__')
         if opt_init is None or not any(attr_chain(t) == ('self', 'secure_cookies_by_default') for n_ in walk_no_nested(opt_init.node)
@@ -911,28 +1049,39 @@ def r4_cookie_attributes(run):
                                        for t in (n_.targets if isinstance(n_, ast.Assign) else [n_.target])):
             raise AnchorError('ResponseOptions.secure_cookies_by_default not found')
         sec_sites = [(n, val, stmt) for (n, key, val, stmt) in attrs if key == 'secure']
-        reads_option = [x for x in walk_no_nested(f.node) if isinstance(x, ast.Attribute) and x.attr == 'secure_cookies_by_default']
+        scopes = [(f, 'secure')]
+        for c_ in walk_no_nested(f.node):
+            if isinstance(c_, ast.Call):
+                g_ = key_helper(p, f, c_)
+                if g_ is not None:
+                    scopes += [(g_, q_) for q_, a_ in bound_args(g_, c_).items() if isinstance(a_, ast.Name) and a_.id == 'secure'
+                               and 'secure' in f.params() and not Defs(f).defs.get('secure')]
+        reads_option = [x for (sf, _q) in scopes for x in walk_no_nested(sf.node)
+                        if isinstance(x, ast.Attribute) and x.attr == 'secure_cookies_by_default']
         if sec_sites and not reads_option:
             run.fail('set_cookie: secure=None does not read options.secure_cookies_by_default', f, sec_sites[0][2],
                      runtime_witness='set_cookie(n, v) on an app with secure_cookies_by_default=True emits no Secure attribute (or always does)')
         elif sec_sites:
             found_default = False
-            for x in walk_no_nested(f.node):
-                if isinstance(x, ast.IfExp) and none_truth(x.test) is not None:
-                    r = none_truth(x.test)
-                    dflt, other = (x.body, x.orelse) if r else (x.orelse, x.body)
-                    ok = any(isinstance(y, ast.Attribute) and y.attr == 'secure_cookies_by_default' for y in ast.walk(dflt)) \
-                        and isinstance(other, ast.Name) and other.id == 'secure'
-                    found_default = True
-                    run.check(ok, 'set_cookie: secure=None reads options.secure_cookies_by_default, anything else is taken as given',
-                              f, x, runtime_witness='set_cookie(n, v) ignores secure_cookies_by_default / secure=False is overridden')
-                elif isinstance(x, ast.If) and none_truth(x.test) is not None:
-                    r = none_truth(x.test)
-                    branch = x.body if r else x.orelse
-                    ok = any(isinstance(st_, ast.Assign) and any(isinstance(y, ast.Attribute) and y.attr == 'secure_cookies_by_default'
-                                                                 for y in ast.walk(st_.value)) for st_ in branch)
-                    found_default = True
-                    run.check(ok, 'set_cookie: secure=None reads options.secure_cookies_by_default', f, x.test)
+            for (sf, prm_) in scopes:
+                none_truth = none_atoms(prm_)
+                for x in walk_no_nested(sf.node):
+                    if isinstance(x, ast.IfExp) and none_truth(x.test) is not None:
+                        r = none_truth(x.test)
+                        dflt, other = (x.body, x.orelse) if r else (x.orelse, x.body)
+                        ok = any(isinstance(y, ast.Attribute) and y.attr == 'secure_cookies_by_default' for y in ast.walk(dflt)) \
+                            and isinstance(other, ast.Name) and other.id == prm_
+                        found_default = True
+                        run.check(ok, 'set_cookie: secure=None reads options.secure_cookies_by_default, anything else is taken as given',
+                                  sf, x, runtime_witness='set_cookie(n, v) ignores secure_cookies_by_default / secure=False is overridden')
+                    elif isinstance(x, ast.If) and none_truth(x.test) is not None:
+                        r = none_truth(x.test)
+                        branch = x.body if r else x.orelse
+                        ok = any(isinstance(st_, (ast.Assign, ast.Return)) and st_.value is not None
+                                 and any(isinstance(y, ast.Attribute) and y.attr == 'secure_cookies_by_default'
+                                         for y in ast.walk(st_.value)) for st_ in branch)
+                        found_default = True
+                        run.check(ok, 'set_cookie: secure=None reads options.secure_cookies_by_default', sf, x.test)
             if not found_default:
                 raise UnknownIdiom('%s: options.secure_cookies_by_default is read, but not under a `secure is None` decision' % f.qual)
         # presence guards of numeric optionals
@@ -962,7 +1111,7 @@ def r4_cookie_attributes(run):
     cfg, attrs, values, taint = _cookie_wiring(run, g, UNSET_COOKIE_TABLE, 'name', {'expires': None})
     _cookie_text_siblings(run, set_func, set_cells, g, _cookie_text_attrs(run, g, cfg, attrs))
     for (n, val, stmt) in values:
-        run.check(p.fold(g.module, val, None, g) == '', 'unset_cookie stores an empty cookie value', g, stmt)
+        run.check(p.fold(g.module, _omitted(p, g, val), None, g) == '', 'unset_cookie stores an empty cookie value', g, stmt)
     run.check(flow.dominated_by_nodes(cfg, cfg.exit, [n.id for (n, _v, _s) in values]),
               'unset_cookie clears the value on every path', g, values[0][2],
               runtime_witness='unset_cookie(name) after set_cookie(name, v) still sends the old value')
@@ -971,7 +1120,7 @@ def r4_cookie_attributes(run):
         run.fail('unset_cookie does not set an expires attribute', g, 'expires', where=g.loc(),
                  runtime_witness='unset_cookie(name) leaves the cookie alive in the user agent')
     for (n, val, stmt) in exp:
-        v = p.fold(g.module, val, None, g)
+        v = p.fold(g.module, _omitted(p, g, val), None, g)
         run.check(isinstance(v, (int, float)) and not isinstance(v, bool) and v < 0 and flow.dominated_by_nodes(cfg, cfg.exit, [n.id])
                   and not controlling_edges(cfg, n.id),
                   'unset_cookie sets a negative expires (already expired) unconditionally', g, stmt,
@@ -1023,11 +1172,14 @@ def _uses_only_inside(f: Func, param: str, ok_call) -> Tuple[bool, List[ast.AST]
     return (not bad), bad
 
 
-def _template(e) -> Optional[List[object]]:
-    """String template as a list of literal pieces (str) and holes (ast)."""
+def _template(e, lit=None) -> Optional[List[object]]:
+    """String template as a list of literal pieces (str) and holes (ast).  `lit(expr)` (optional) gives the text of a name
+    that stands for a string constant (a module-level `_FMT = '%s; filename="%s"'` bound once is its value)."""
     e = strip_await(e)
     if isinstance(e, ast.Constant) and isinstance(e.value, str):
         return [e.value]
+    if lit is not None and isinstance(e, (ast.Name, ast.Attribute)) and isinstance(lit(e), str):
+        return [lit(e)]
     if isinstance(e, ast.JoinedStr):
         out: List[object] = []
         for v in e.values:
@@ -1037,15 +1189,18 @@ def _template(e) -> Optional[List[object]]:
                 out.append(v.value)
         return out
     if isinstance(e, ast.BinOp) and isinstance(e.op, ast.Add):
-        l, r = _template(e.left), _template(e.right)
+        l, r = _template(e.left, lit), _template(e.right, lit)
         if l is None:
             l = [e.left]
         if r is None:
             r = [e.right]
         return l + r
-    if isinstance(e, ast.BinOp) and isinstance(e.op, ast.Mod) and isinstance(e.left, ast.Constant) and isinstance(e.left.value, str):
+    if isinstance(e, ast.BinOp) and isinstance(e.op, ast.Mod):
+        fmt = e.left.value if isinstance(e.left, ast.Constant) else (lit(e.left) if lit is not None and isinstance(e.left, (ast.Name, ast.Attribute)) else None)
+        if not isinstance(fmt, str):
+            return None
         args = list(e.right.elts) if isinstance(e.right, ast.Tuple) else [e.right]
-        pieces = e.left.value.split('%s')
+        pieces = fmt.split('%s')
         if len(pieces) != len(args) + 1 or '%' in ''.join(pieces).replace('%%', ''):
             return None
         out = []
@@ -1055,6 +1210,45 @@ def _template(e) -> Optional[List[object]]:
                 out.append(args[i])
         return out
     return None
+
+
+def _through_locals(p, f: Func, holes: List[object], nid: int) -> List[object]:
+    """Template holes with once-bound locals replaced by what they are bound to (`encoded = uri.encode_value(value)` ...
+    `'...%s' % encoded`): only when every name the binding reads still has, at the use, the definitions it had at the binding."""
+    rd = reaching(p, f)
+
+    def resolve(x, depth=0):
+        if not (isinstance(x, ast.Name) and depth < 3):
+            return x
+        ds = rd.at(nid, x.id)
+        if len(ds) != 1 or ds[0].kind != 'assign' or ds[0].value is None:
+            return x
+        d = ds[0]
+        for y in ast.walk(d.value):
+            if isinstance(y, ast.Name) and isinstance(y.ctx, ast.Load) and y.id in local_names(f):
+                if {z.idx for z in rd.at(d.node, y.id)} != {z.idx for z in rd.at(nid, y.id)}:
+                    return x
+        return resolve(strip_await(d.value), depth + 1)
+
+    return [h if isinstance(h, str) else resolve(h) for h in holes]
+
+
+def _omitted(p, f: Func, e):
+    """`e`, or - when it names a parameter of f that is never rebound, has a default and that no call of the analysed package
+    supplies (an additive `_expires: int = -1`) - that default: the value it has for every call falcon makes."""
+    if isinstance(e, ast.Name) and e.id in f.params() and not Defs(f).defs.get(e.id):
+        pv = param_values(p, f, e.id)
+        if pv is not None and len(pv) == 1 and pv[0][0] is None:
+            return pv[0][1]
+    return e
+
+
+def _const_text(p, f: Func):
+    """lit() for _template: the text of a non-local name that folds to a string constant"""
+    def lit(x):
+        v = p.fold(f.module, x, None, f)
+        return v if isinstance(v, str) else None
+    return lit
 
 
 def r5_uri_helpers(run):
@@ -1108,7 +1302,7 @@ def r5_uri_helpers(run):
     # and the literal introducing it is UTF-8'<lang>'
     tpl_ok = False
     for n in ast.walk(f.node):
-        t = _template(n) if isinstance(n, (ast.JoinedStr, ast.BinOp)) else None
+        t = _template(n, _const_text(p, f)) if isinstance(n, (ast.JoinedStr, ast.BinOp)) else None
         if t and any(isinstance(x, ast.Call) and x.args and x.args[0] in texts for x in t):
             i = next(i for i, x in enumerate(t) if isinstance(x, ast.Call) and x.args and x.args[0] in texts)
             before = ''.join(x if isinstance(x, str) else '\0' for x in t[:i])
@@ -1136,9 +1330,10 @@ def r5_uri_helpers(run):
         if ascii_only:
             continue
         n_rets += 1
-        t = _template(n.ast.value)
+        t = _template(n.ast.value, _const_text(p, g))
         if t is None:
             raise UnknownIdiom('%s: cannot read the template of %s' % (g.qual, short(n.ast.value)))
+        t = _through_locals(p, g, t, n.id)
         # holes that carry the name: the parameter, or a local built from it (whether the local still is the whole
         # name is R15's clause; here only the encoder in front of it is judged)
         def carries(x, nid=n.id):
@@ -1204,16 +1399,38 @@ def r6_property_factory(run):
     sites = [s for s in _sites(run) if s.func.parent is fac]
     if not sites:
         raise AnchorError('%s: no header access in the accessors' % FACTORY)
-    keys = {short(s.key) for s in sites}
     fdefs = Defs(fac)
+
+    def canon(site) -> Optional[str]:
+        """the factory-scope name the accessor's key stands for: the closure variable itself, looked through locals of the
+        accessor and closure variables that are bound once to another name (`key = normalized_name`)"""
+        k = strip_await(site.key)
+        if not isinstance(k, ast.Name):
+            return None
+        nm = k.id
+        if nm in local_names(site.func):
+            ds = Defs(site.func).defs.get(nm, [])
+            if nm in site.func.params() or len(ds) != 1 or ds[0][0] != 'assign' or not isinstance(ds[0][1], ast.Name) \
+                    or ds[0][1].id in local_names(site.func):
+                return None
+            nm = ds[0][1].id
+        for _ in range(4):
+            ds = fdefs.defs.get(nm, [])
+            if nm not in params and len(ds) == 1 and ds[0][0] == 'assign' and isinstance(ds[0][1], ast.Name):
+                nm = ds[0][1].id
+            else:
+                break
+        return nm
+
+    keys = {canon(s) or short(s.key) for s in sites}
     # one key, derived from the name parameter by .lower()
     for s in sites:
-        k = strip_await(s.key)
         ok = False
         why = ''
-        if isinstance(k, ast.Name) and k.id not in local_names(s.func):
-            ds = fdefs.defs.get(k.id, [])
-            ok = bool(ds) and k.id not in params and all(
+        kn = canon(s)
+        if kn is not None:
+            ds = fdefs.defs.get(kn, [])
+            ok = bool(ds) and kn not in params and all(
                 d[0] == 'assign' and is_lower_call(d[1]) and isinstance(d[1].func.value, ast.Name) and d[1].func.value.id == name_p for d in ds)
             why = '; '.join(short(d[1], 40) for d in ds if d[0] == 'assign')
         # one obligation per cell of transform in {None, callable} in which this accessor variant is the one installed (two
@@ -1783,6 +2000,12 @@ def r14_jar_only_grows(run):
                 hits = [x for x in walk_self(f.node) if is_jar(x)]
                 if not hits:
                     continue
+                # a local bound only to the jar attribute (`jar = self._cookies`, `jar = self._cookies = SimpleCookie()`) is the jar
+                _den, _aliases = store_exprs(p, f, jar)
+
+                def is_jar(e, _aliases=_aliases):    # noqa: F811
+                    return (isinstance(e, ast.Attribute) and e.attr == jar and isinstance(e.value, ast.Name)) \
+                        or (isinstance(e, ast.Name) and e.id in _aliases)
                 run.use(f)
                 cfg = None
                 for x in walk_self(f.node):
@@ -1800,8 +2023,8 @@ def r14_jar_only_grows(run):
                                  % (f.name, x.func.attr), f, x)
                     elif isinstance(x, (ast.Assign, ast.AnnAssign)) and getattr(x, 'value', None) is not None:
                         tg = x.targets if isinstance(x, ast.Assign) else [x.target]
-                        if not any(is_jar(t) for t in tg):
-                            continue
+                        if not any(isinstance(t, ast.Attribute) and is_jar(t) for t in tg):
+                            continue        # (binding a local alias of the jar rebinds nothing)
                         n += 1
                         v = x.value
                         if isinstance(v, ast.Constant) and v.value is None:
@@ -1866,9 +2089,10 @@ def r15_disposition_text(run):
     for n in cfg.live_nodes():
         if n.kind != 'stmt' or not isinstance(n.ast, ast.Return) or n.ast.value is None:
             continue
-        t = _template(n.ast.value)
+        t = _template(n.ast.value, _const_text(p, g))
         if t is None:
             raise UnknownIdiom('%s: cannot read the template of %s' % (g.qual, short(n.ast.value)))
+        t = _through_locals(p, g, t, n.id)
         for i, x in enumerate(t):
             if isinstance(x, str):
                 continue
